@@ -18,7 +18,7 @@ package main
 //     pairs), thorough q in P u negated
 //   modes: include, exclude, iinclude, iexclude (thorough also: first pattern
 //     as --include, second as --iinclude; same for excludes)
-//   target: empty without --delete; with --delete two pre-existing trees derived
+//   target: empty without --delete; with --delete two (quick: one) pre-existing trees derived
 //     from the snapshot tree: PRE1 = all snapshot entries (with different
 //     content) + extra files/dirs (names ba, B, aB/...) in every snapshot
 //     directory, PRE2 = only the extras
@@ -304,15 +304,44 @@ func verifC20Listing(root string) map[string]string {
 	return m
 }
 
+// verifC20Detail returns a copy of base extended by kv pairs (violations keep a reference to their detail).
+func verifC20Detail(base map[string]any, kv ...any) map[string]any {
+	m := map[string]any{}
+	for k, v := range base {
+		m[k] = v
+	}
+	for i := 0; i+1 < len(kv); i += 2 {
+		m[kv[i].(string)] = kv[i+1]
+	}
+	return m
+}
+
 func TestVerif_C20(t *testing.T) {
 	r := vh.Start(t, "C20")
 	defer r.Finish()
-	r.Rule("fixed snapshot trees (quick 3, thorough 8) x pattern sets (all singles of 15 patterns, pairs with negations; thorough all ordered pairs) x modes (include, exclude, iinclude, iexclude; thorough also mixed lists) x {no delete into empty target, --delete into 2 pre-existing trees}; one real backup per tree, one real runRestore per element; non-trivial = the selection is a proper non-empty subset of the snapshot entries or, with --delete, of the pre-existing extra entries")
+	r.Rule("fixed snapshot trees (quick 3, thorough 8) x pattern sets (all singles of 15 patterns, pairs with negations; thorough all ordered pairs) x modes (include, exclude, iinclude, iexclude; thorough also mixed lists) x {no delete into empty target, --delete into pre-existing trees (quick 1, thorough 2)}; one real backup per shard, one real runRestore per element; non-trivial = the selection is a proper non-empty subset of the snapshot entries or, with --delete, of the pre-existing extra entries")
 	r.Assume("filter.Match (single pattern vs path) is the trusted primitive (C28)", "patterns are applied to locations relative to the snapshot:subfolder root", "regular files and directories only")
 
 	trees := verifC20Trees(r.Thorough())
 	modes := verifC20Modes(r.Thorough())
 	sets := verifC20PatternSets(r.Thorough())
+
+	// one repository and one backup per shard: all trees side by side below src/, restored
+	// individually through the snapshot:subfolder syntax
+	env, cleanup := withTestEnvironment(t)
+	defer cleanup()
+	testRunInit(t, env.gopts)
+	srcRoot := filepath.Join(env.testdata, "src")
+	for _, tree := range trees {
+		src := filepath.Join(srcRoot, tree.name)
+		if err := os.MkdirAll(src, 0o755); err != nil {
+			t.Fatal(err)
+		}
+		verifC20Write(t, src, tree.entries, "SNAP:")
+	}
+	testRunBackup(t, "", []string{srcRoot}, BackupOptions{}, env.gopts)
+	ids := testListSnapshots(t, env.gopts, 1)
+	env.gopts.NoLock = true // restore is read-only; skips writing a lock file per restore
 
 	for _, tree := range trees {
 		// which pattern sets of this tree belong to this shard?
@@ -326,16 +355,7 @@ func TestVerif_C20(t *testing.T) {
 			continue
 		}
 		func() {
-			env, cleanup := withTestEnvironment(t)
-			defer cleanup()
-			testRunInit(t, env.gopts)
-			src := filepath.Join(env.testdata, "src")
-			verifC20Write(t, src, tree.entries, "SNAP:")
-			if err := os.MkdirAll(src, 0o755); err != nil {
-				t.Fatal(err)
-			}
-			testRunBackup(t, "", []string{src}, BackupOptions{}, env.gopts)
-			ids := testListSnapshots(t, env.gopts, 1)
+			src := filepath.Join(srcRoot, tree.name)
 			snap := ids[0].String() + ":" + filepath.ToSlash(src)
 			extras := tree.extras()
 			pre1 := map[string]bool{}
@@ -357,7 +377,10 @@ func TestVerif_C20(t *testing.T) {
 				entries map[string]bool
 				del     bool
 			}
-			pres := []preT{{"empty", map[string]bool{}, false}, {"PRE1", pre1, true}, {"PRE2", pre2, true}}
+			pres := []preT{{"empty", map[string]bool{}, false}, {"PRE1", pre1, true}}
+			if r.Thorough() {
+				pres = append(pres, preT{"PRE2", pre2, true})
+			}
 
 			n := 0
 			for _, ps := range mine {
@@ -439,8 +462,7 @@ func TestVerif_C20(t *testing.T) {
 								default:
 									kind = "wrong-content(" + strings.SplitN(want[p], ":", 3)[0] + ")"
 								}
-								detail["path"], detail["want"], detail["got"] = p, want[p], got[p]
-								r.Violationf(ck, fmt.Sprintf("C20|%s|%s|%s", kind, vid, tree.name), detail, "tree %s, %s %v, delete=%v, pre=%s: %s: want %q, got %q", tree.name, mode.name, ps, pre.del, pre.name, p, want[p], got[p])
+								r.Violationf(ck, fmt.Sprintf("C20|%s|%s|%s", kind, vid, tree.name), verifC20Detail(detail, "path", p, "want", want[p], "got", got[p]), "tree %s, %s %v, delete=%v, pre=%s: %s: want %q, got %q", tree.name, mode.name, ps, pre.del, pre.name, p, want[p], got[p])
 								break
 							}
 						}
@@ -485,7 +507,7 @@ func TestVerif_C20(t *testing.T) {
 									continue
 								}
 								bad = true
-								detail["path"], detail["selected_ancestor_or_self"], detail["topmost_extra"] = p, selAnc, top
+								detail := verifC20Detail(detail, "path", p, "selected_ancestor_or_self", selAnc, "topmost_extra", top)
 								switch {
 								case !wantGone:
 									r.Violationf(ck, "C20|extra-removed|"+vid, detail, "tree %s, %s %v, delete=%v: pre-existing %s is not selected but was removed", tree.name, mode.name, ps, pre.del, p)
@@ -500,7 +522,6 @@ func TestVerif_C20(t *testing.T) {
 								default:
 									r.Violationf(ck, "C20|delete-missed|"+vid, detail, "tree %s, %s %v, --delete: pre-existing %s is selected and not in the snapshot but was kept", tree.name, mode.name, ps, p)
 								}
-								break
 							}
 						}
 						// anything in the target that is neither a snapshot path nor an extra?
@@ -512,8 +533,7 @@ func TestVerif_C20(t *testing.T) {
 								continue
 							}
 							bad = true
-							detail["path"] = p
-							r.Violationf(ck, "C20|foreign|"+vid, detail, "restore created %s which is neither in the snapshot nor pre-existing", p)
+							r.Violationf(ck, "C20|foreign|"+vid, verifC20Detail(detail, "path", p), "restore created %s which is neither in the snapshot nor pre-existing", p)
 							break
 						}
 						if (nsel > 0 && nsel < len(tree.entries)) || (pre.del && nExtraSel > 0 && nExtraSel < len(extras)) {
